@@ -36,12 +36,37 @@ func CompileLuaChunk(source string, s ast.BlockStat) (kidx uint, consts []ir.Con
 type compiler struct {
 	*ir.CodeBuilder
 	hasDots bool // true if the function being compiled is a vararg function
+	depth   int  // depth in the AST of the node being compiled
 }
 
 func (c *compiler) NewChild(name string) *compiler {
 	return &compiler{
 		CodeBuilder: c.CodeBuilder.NewChild(name),
+		depth:       c.depth,
 	}
+}
+
+// The compiler is recursive, so there is a limit to the depth of the AST it can
+// process.  The parser limits the nesting of syntactic constructs to a much
+// lower value but it accepts long chains (e.g. f()()()(), a.b.c.d.e, x..y..z)
+// which also make a deep AST.  This limit does not prevent compiling any
+// reasonable program as a function cannot have more than 32767 opcodes.
+const maxDepth = 1 << 15
+
+// enterNode must be called when starting to compile a node that may contain
+// nodes of the same kind, and leaveNode when done.
+func (c *compiler) enterNode(l ast.Locator) {
+	c.depth++
+	if c.depth > maxDepth {
+		panic(Error{
+			Where:   l,
+			Message: "chunk has too many syntax levels",
+		})
+	}
+}
+
+func (c *compiler) leaveNode() {
+	c.depth--
 }
 
 // Names of various labels and registers used during compilation.
